@@ -219,6 +219,8 @@ fn run() {
         (Drv { k: 3, ..base }, vec![0, 1]),
         (Drv { wide: true, read: 8, ..base }, vec![0, 1]),
         (Drv { indeterminate: true, ..base }, vec![0, 1]),
+        // three sender tasks on one channel whose data is only flushed by the close after the last record
+        (Drv { senders: 3, k: 3, active: 4, read: 2048, ..base }, vec![0, 1]),
     ];
     if thorough {
         drivers = vec![
@@ -235,7 +237,13 @@ fn run() {
             (Drv { wide: true, read: 16, k: 3, ..base }, vec![0, 1, 2]),
             (Drv { indeterminate: true, ..base }, vec![0, 1, 2]),
             (Drv { indeterminate: true, k: 3, ..base }, vec![0, 1, 2]),
+            (Drv { senders: 3, k: 3, active: 4, read: 2048, ..base }, vec![0, 1, 2]),
         ];
+    }
+    // development aid: VERIF_C13S_ONLY='{"senders":3,...}|0,1,2' explores one driver
+    if let Ok(only) = std::env::var("VERIF_C13S_ONLY") {
+        let (dj, bs) = only.split_once('|').unwrap();
+        drivers = vec![(Drv::from_json(&serde_json::from_str(dj).unwrap()), bs.split(',').map(|b| b.parse().unwrap()).collect())];
     }
     r.flag("exhaustive", true);
     let (cap_exec, cap_wall) = if thorough { (20_000_000, 1200) } else { (2_000_000, 120) };
